@@ -105,7 +105,57 @@ def replay_chunk(cases: List[Dict[str, Any]]):
             key = f"{clause}:{fc}" if clause in ("shape", "closed", "flushed", "ok-iff-returned") else f"{clause}:{fc}:{prog_key(case['prog'])}"
             out["viol"].append((key, f"[{prog_key(case['prog'])}] ({where}, detail={detail}, mode={mode}) {msg}",
                                 {"case": case, "nodes": nodes, "detail": detail, "mode": mode}))
+        # the same call again on the SAME Pipeline object (a retry): its stream must satisfy every clause as well,
+        # with ids of its own -- whatever the first run left behind
+        if (case["status"] == "fail" and h % 4 == 0) or h % 16 == 0:
+            second = second_run_on_same_pipeline(nodes, case, detail)
+            if second is not None:
+                obs2, first_run_id = second
+                bad2 = check_stream(case, obs2, untraced)
+                st2 = next((r for r in obs2["records"] if r.get("record_type") == "pipeline_start"), None)
+                if st2 is not None and st2.get("run_id") == first_run_id:
+                    bad2.append(("ids", f"second run re-uses the first run's run_id {first_run_id}"))
+                for clause, msg in bad2:
+                    out["viol"].append((f"retry:{clause}:{fc}", f"[{prog_key(case['prog'])}] second run on the same Pipeline object (detail={detail}): {msg}",
+                                        {"case": case, "nodes": nodes, "detail": detail, "mode": "dir", "retry": True}))
     return out
+
+
+def second_run_on_same_pipeline(nodes, case, detail):
+    """Run the case twice through ONE Pipeline object (directory trace output: one file per run) and return the
+    observation of the second run (records of the files it created) plus the first run's id."""
+    import copy
+    import shutil
+    import tempfile
+    from pathlib import Path
+
+    from semantiva.pipeline import Pipeline
+
+    from ..seams import make_recording_orchestrator, run_nodes
+    from ..traced import make_driver, read_records
+
+    orch = make_recording_orchestrator()      # the Pipeline keeps ONE orchestrator across its runs
+    tmp = Path(tempfile.mkdtemp(prefix="vretry-"))
+    try:
+        drv = make_driver(str(tmp / "d"), detail)
+        try:
+            p = Pipeline(copy.deepcopy(nodes), trace=drv)
+        except Exception:
+            return None
+        run_nodes(nodes, g_data(case["idata"]), g_ctx(case["ictx"]), pipeline=p, orchestrator=orch)
+        files_a = set((tmp / "d").rglob("*.jsonl")) if (tmp / "d").exists() else set()
+        first = [r for f in sorted(files_a) for r in read_records(f)]
+        first_id = next((r.get("run_id") for r in first if r.get("record_type") == "pipeline_start"), None)
+        calls_before = len(drv.calls)
+        obs = run_nodes(nodes, g_data(case["idata"]), g_ctx(case["ictx"]), pipeline=p, orchestrator=orch)
+        files_b = (set((tmp / "d").rglob("*.jsonl")) if (tmp / "d").exists() else set()) - files_a
+        obs["records"] = [r for f in sorted(files_b) for r in read_records(f)]
+        obs["driver_calls"] = list(drv.calls[calls_before:])
+        obs["handles"] = len(drv.handles)
+        obs["handles_closed"] = all(hd.closed for hd in drv.handles)
+        return obs, first_id
+    finally:
+        shutil.rmtree(tmp, ignore_errors=True)
 
 
 def _replay(run: core.Run, cfg: str, **kw):
